@@ -394,7 +394,7 @@ Definition spec_decode (v : N) (bs : list N) : sres (body * list N) :=
   | [] => SBad SIncomplete
   | first :: r =>
       let t := first / 16 in let flags := first mod 16 in
-      sdo '(rl, r) <- s_varint (v =? 5) r;
+      sdo '(rl, r) <- s_varint true r;                 (* 1.5.5 / (3.1.1) 2.2.3: the encoding scheme is minimal *)
       sdo _ <- guard (negb (t =? 0) && ((v =? 5) || negb (t =? 15))) SReservedType;
       sdo _ <- guard (if t =? PUBLISH then true
                       else if (t =? PUBREL) || (t =? SUBSCRIBE) || (t =? UNSUBSCRIBE) then flags =? 2
